@@ -1099,7 +1099,7 @@ func (in *Interp) visitInstr(fr *frame, instr ssa.Instruction) continuation {
 		if n < 0 || c < n {
 			panic(goPanic{msg: "makeslice: len out of range"})
 		}
-		if c > 1<<22 {
+		if c > 1<<24 {
 			in.unsupported(fmt.Sprintf("makeslice of %d elements", c))
 		}
 		s := make(sliceV, c)
